@@ -60,7 +60,7 @@ Print Assumptions C01_unmarshal_stream_marshal_stream.
 Theorem C01_unmarshal_srd_marshal_stream : forall p s rest,
   wf_stream p = true -> no_empty s -> concat s = marshal_stream p ++ rest ->
   exists s', unmarshal_srd s = Ok (p, s') /\ concat s' = rest /\ no_empty s'.
-Proof. exact (fun p s rest H => unmarshal_srd_marshal_stream p H s rest). Qed.
+Proof. exact unmarshal_srd_marshal_stream. Qed.
 Print Assumptions C01_unmarshal_srd_marshal_stream.
 
 (* the two readers of the nested form agree on EVERY input, malformed ones included (up to the error code) *)
@@ -128,12 +128,12 @@ Print Assumptions C01_bits_set_group.
 Theorem C01_set_bits_independent : forall f n, 0 <= n < 65536 ->
   flag_len (flag_set f n) = flag_len f /\ flag_position (flag_set f n) = flag_position f /\
   flag_group (flag_set f n) = flag_group f /\ u16 (flag_set f n) = Z.lor (u16 f) n.
-Proof. exact (fun f n H => conj (len_set f n H) (conj (position_set f n H) (conj (group_set f n H) (bits_set f n H)))). Qed.
+Proof. exact set_bits_independent. Qed.
 Print Assumptions C01_set_bits_independent.
 Theorem C01_unset_bits_independent : forall f n, 0 <= n < 65536 ->
   flag_len (flag_unset f n) = flag_len f /\ flag_position (flag_unset f n) = flag_position f /\
   flag_group (flag_unset f n) = flag_group f /\ u16 (flag_unset f n) = Z.ldiff (u16 f) n.
-Proof. exact (fun f n H => conj (len_unset f n H) (conj (position_unset f n H) (conj (group_unset f n H) (bits_unset f n H)))). Qed.
+Proof. exact unset_bits_independent. Qed.
 Print Assumptions C01_unset_bits_independent.
 
 Theorem C01_setters_in_range : forall f n, 0 <= n < 65536 ->
